@@ -65,8 +65,10 @@ class Loader():
             pypyr.pipedef.PipelineDefinition: Yaml payload and loader info
                 metadata for the pipeline.
         """
-        # str keys perform better than tuples in dicts
-        normalized_name = f'{parent}+{name}' if parent else name
+        # key on the (parent, name) pair, not on a joined string: joining with a
+        # separator lets distinct requests collide when the separator appears in
+        # either part, e.g. ('/x', 'a+b') and ('/x+a', 'b').
+        normalized_name = (f'{parent}' if parent else None, name)
         return self._pipeline_cache.get(
             normalized_name,
             lambda: self._load_pipeline(name, parent))
